@@ -238,9 +238,10 @@ Definition rt_h3_fresh (e : env) (c : client) : res :=
   let '(h, d) := h3_dial e c in
   match h with
   | HsOk _ => (Use V3, [d], with_t3 T3Conn c)
-  | HsFail EDial => (Fail EDial, [], with_t3 (T3Failed EDial) c)
-      (* nobody answers: the request's own deadline expires first (QUIC gives up after 10 s), RoundTripOpt
-         returns on ctx.Done() WITHOUT removeClient: the entry stays and hands its error to the next user *)
+  | HsFail EDial => (Fail EDial, [], c)
+      (* nobody answers: the request's own deadline expires first (QUIC gives up after 10 s); the dial runs with
+         the context of the request that started it and ends with it: the entry is left with that error and is
+         dropped by the next getClient (5efe32e), i.e. it is as good as absent *)
   | HsFail er => (Fail er, [d], c)
   end.
 
@@ -249,7 +250,6 @@ Definition rt_h3 (only_cached : bool) (e : env) (c : client) : option res :=
   if negb (e_https e) then Some (Fail EScheme, [], c) else
   match c_t3 c with
   | T3Conn => Some (Use V3, [], c)
-  | T3Failed er => Some (Fail er, [], with_t3 T3None c)          (* dialErr: removeClient *)
   | T3Dialing => Some (Fail EDial, [], c)                        (* ctx.Done() while waiting on cl.dialing *)
   | T3Dead =>
       (* the round trip on the closed connection fails with the connection's error and removes the entry; a
@@ -257,6 +257,10 @@ Definition rt_h3 (only_cached : bool) (e : env) (c : client) : option res :=
          cached connections may be used *)
       if only_cached then Some (Fail ECert, [], with_t3 T3None c)
       else Some (rt_h3_fresh e (with_t3 T3None c))
+  | T3Failed _ =>
+      (* an entry whose dial has ended with an error is dropped by getClient: as if there were none (before
+         5efe32e it handed its error to the next request; the harness waits for the end of a dial) *)
+      if only_cached then None else Some (rt_h3_fresh e (with_t3 T3None c))
   | T3None => if only_cached then None else Some (rt_h3_fresh e c)
   end.
 
@@ -361,7 +365,8 @@ Definition do_req_pinned := do_req_gen false.
 Definition do_bg (e : env) (c : client) : list dial * client :=
   if negb (c_bg c) then ([], c) else
   match c_t3 c with
-  | T3None =>
+  | T3None | T3Failed _ =>
+      let c := with_t3 T3None c in
       let '(h, d) := h3_dial e c in
       match h with
       | HsOk _ => ([d], with_alt (APending true) false (with_t3 T3Conn c))
@@ -371,11 +376,10 @@ Definition do_bg (e : env) (c : client) : list dial * client :=
           then (* only the client certificate is refused: the dial itself succeeds (the server's verdict arrives
                   after the client's handshake is complete), AddConn reports success *)
                ([d], with_alt (APending true) false (with_t3 T3Dead c))
-          else ([d], with_alt (APending true) false (with_t3 (T3Failed ECert) c))
-      | HsFail er => ([d], with_alt (APending true) false (with_t3 (T3Failed er) c))
+          else ([d], with_alt (APending true) false c)   (* the failed entry is dropped by the next getClient *)
+      | HsFail er => ([d], with_alt (APending true) false c)
       end
   | T3Conn | T3Dialing | T3Dead => ([], with_alt (APending true) false c)
-  | T3Failed _ => ([], with_alt (APending false) false (with_t3 T3None c))   (* AddConn returns the dial error *)
   end.
 
 (* Transport.Clone (+ Options.Clone): configuration copied, connection state fresh *)
